@@ -253,17 +253,14 @@ def run(spec, scratch, server=None):
             plain = m.plain(fi, step["carrier"])
             args = [V.build(a, perm_seed=step["perm"]) for a in a_specs]
             kwargs = {k: V.build(v, perm_seed=step["perm"]) for k, v in k_specs.items()}
+            # the undecorated function itself says what the call means (and whether Python accepts it):
+            # it returns (name, canonical form of its bound, non-ignored arguments)
             try:
-                ba = inspect.signature(plain).bind(*args, **kwargs)
+                expected = plain(*args, **kwargs)
             except TypeError:
-                rec["skipped"] = "rejected-by-bind"
+                rec["skipped"] = "rejected-by-python"
                 continue
-            ba.apply_defaults()
-            bound = dict(ba.arguments)
-            if step["carrier"] != "f":
-                bound = {"self": m.insts[step["carrier"]], **bound}
-            name = ("f_%d" if step["carrier"] == "f" else "m_%d") % fi
-            expected = MF.describe(name, bound, MF.IGNORE.get(name, ()))
+            name = expected[0]
             try:
                 json.dumps(expected)
             except Exception:
